@@ -148,6 +148,7 @@ impl Mon {
             };
             if ro_dep && *name != "initial" && !iso_dep {
                 props.push("C14");
+                self.r.count("pulse.levels_compared_for_accounts_with_reduce_only_deposits");
             }
             // a deposit in an isolated-tier bank is an asset of the account (equity) although it is
             // worth nothing as collateral: kept apart because the program values it at zero for
